@@ -79,11 +79,13 @@ DelSubs(store, mode, e, i) ==
 (* One recorded storage-hook call -> the store after it. *)
 ApplyEvent(store, mode, dev, e) ==
     CASE e.op = "established" -> PutClient(store, mode, e.c.id, ClientRec(e.c, dev))
-      [] e.op = "will_sent"   -> PutClient(store, mode, e.c.id, ClientRec(e.c, dev))
+      \* (the connection object of a session that was taken over leaves the record to its successor: 7d9b762)
+      [] e.op = "will_sent"   -> IF e.c.stop = "takenover" THEN store ELSE PutClient(store, mode, e.c.id, ClientRec(e.c, dev))
       [] e.op = "disconnect"  ->
+            IF e.c.stop = "takenover" THEN store ELSE
             LET s1 == IF "NoDisconnectRewrite" \in dev THEN store
                       ELSE PutClient(store, mode, e.c.id, ClientRec(e.c, dev))
-            IN IF e.expire /\ e.c.stop # "takenover" THEN DelClient(s1, mode, e.c.id) ELSE s1
+            IN IF e.expire THEN DelClient(s1, mode, e.c.id) ELSE s1
       [] e.op = "client_expired" -> DelClient(store, mode, e.c.id)
       [] e.op = "subscribed"   -> PutSubs(store, mode, dev, e, 1)
       [] e.op = "unsubscribed" -> DelSubs(store, mode, e, 1)
